@@ -109,8 +109,8 @@ Lemma bind_ok {S A B} (m : M S A) (k : A -> M S B) s s' (v : B) :
   bind m k s = (s', Ok v) -> exists s1 a, m s = (s1, Ok a) /\ k a s1 = (s', Ok v).
 Proof. unfold bind. destruct (m s) as [s1 [a| |]]; intros H; try discriminate. eauto. Qed.
 
-Lemma receive_headers_tail cfg hs es e0 e1 s2 s' evs :
-  (initialize_content_length hs ;;;
+Lemma receive_headers_tail (m0 : SM unit) cfg hs es e0 e1 s2 s' evs :
+  (m0 ;;;
    (if hd_is SE_TrailersReceived (e0 :: e1) && negb es then lift_res perr else ret tt) ;;;
    f <- lift_res (build_flags (e0 :: e1)) ;;
    h <- lift_res (process_received_headers cfg f hs) ;;
@@ -140,15 +140,15 @@ Proof.
   - apply bind_ok in H as (s1 & e1 & Ef & H). apply bind_ok in H as (s2 & e2 & E2 & H).
     unfold ret in E2. injection E2 as <- <-.
     destruct e1 as [|e0 e1]; [unfold crash in H; discriminate|].
-    refine (receive_headers_tail cfg hs false e0 e1 _ _ _ H _). intros; discriminate.
+    refine (receive_headers_tail _ cfg hs false e0 e1 _ _ _ H _). intros; discriminate.
   - apply bind_ok in H as (s1 & e1 & Ef & H). apply bind_ok in H as (s2 & e2 & E2 & H).
     destruct e1 as [|e0 e1]; [unfold crash in H; discriminate|].
     destruct e2 as [|x xs]; [unfold crash in H; discriminate|].
-    refine (receive_headers_tail cfg hs true e0 e1 _ _ _ H _). intros _ ->.
+    refine (receive_headers_tail _ cfg hs true e0 e1 _ _ _ H _). intros _ ->.
     unfold fsm in Ef. destruct (process_input (s_id s) (s_sm s) SI_RECV_HEADERS) as [m r] eqn:Ep.
     injection Ef as _ ->. exact (recv_headers_no_info _ _ _ _ Ep).
   - apply bind_ok in H as (s1 & e1 & Ef & H). apply bind_ok in H as (s2 & e2 & E2 & H).
     unfold ret in E2. injection E2 as <- <-.
     destruct e1 as [|e0 e1]; [unfold crash in H; discriminate|].
-    refine (receive_headers_tail cfg hs false e0 e1 _ _ _ H _). intros; discriminate.
+    refine (receive_headers_tail _ cfg hs false e0 e1 _ _ _ H _). intros; discriminate.
 Qed.
